@@ -32,7 +32,10 @@ type Case struct {
 var big = strings.Repeat("y", 32*1024-3) // puts what follows across the 32 KiB copy-buffer boundary
 
 var toks = []string{"a", "b", "\n", "\r\n", "\r", "\x00", " ", "\t", "\x1a", "\x7f", "\x01", "\n", "\r\n",
-	"xxxxxxxxxxxxxxxxxxxxxxxxxxxxxxxx", "line\n", "line\r\n", "\r\r\n", "\n\r", "\x1b", "\x0c", "\x08", big, "yy", "\xc3\xa9", "\xff"}
+	"xxxxxxxxxxxxxxxxxxxxxxxxxxxxxxxx", "line\n", "line\r\n", "\r\r\n", "\n\r", "\x1b", "\x0c", "\x08", big, "yy", "\xc3\xa9", "\xff",
+	// fillers that put the NEXT token's first byte exactly at / one before / one after a 32 KiB copy-buffer
+	// boundary, so that a CR LF pair can straddle two chunks of a streamed conversion (indexes 25, 26, 27)
+	strings.Repeat("y", 32*1024-1), strings.Repeat("y", 32*1024-2), strings.Repeat("y", 32*1024)}
 
 func (c Case) bytes() []byte {
 	var sb strings.Builder
@@ -45,8 +48,19 @@ func (c Case) bytes() []byte {
 func gen(t *rapid.T, r *evid.Recorder) Case {
 	c := Case{Mode: rapid.SampledFrom([]string{"true", "input", "true", "input", "false"}).Draw(t, "mode")}
 	// shapes: free soup | LF text | CRLF text | mixed-EOL text, the last three with up to 2 foreign tokens
-	shape := rapid.IntRange(0, 3).Draw(t, "shape")
-	if shape == 0 {
+	shape := rapid.IntRange(0, 4).Draw(t, "shape")
+	if shape == 4 {
+		// chunk-boundary shapes: 1-3 (filler, line ending) groups; the second and third fillers are chosen so
+		// that, whatever came before, the group's line ending again sits around a multiple of 32 KiB
+		n := rapid.IntRange(1, 3).Draw(t, "ngroups")
+		for i := 0; i < n; i++ {
+			c.Toks = append(c.Toks, rapid.SampledFrom([]int{25, 25, 26, 27, 21}).Draw(t, "filler"))
+			c.Toks = append(c.Toks, rapid.SampledFrom([]int{3, 3, 15, 16, 2, 4}).Draw(t, "eol"))
+			if rapid.Bool().Draw(t, "more") {
+				c.Toks = append(c.Toks, rapid.SampledFrom([]int{0, 1, 14, 15, 3}).Draw(t, "tail"))
+			}
+		}
+	} else if shape == 0 {
 		c.Toks = rapid.SliceOfN(rapid.IntRange(0, len(toks)-1), 0, 12).Draw(t, "toks")
 	} else {
 		pool := [][]int{nil, {0, 1, 2, 14, 6, 13, 22, 23}, {0, 1, 3, 15, 6, 13, 22}, {0, 1, 2, 3, 14, 15, 16, 17, 21}}[shape]
